@@ -130,6 +130,8 @@ def run_case(case):
             _t, rp = twin.build(p, {}, opt, case.get("sched"))
             if not rp.accepted:
                 return {"discard": "rejected" if rp.status == "rejected" else "crashed", "message": rp.message}
+        if "[layout_planning]" in (rw.message or ""):
+            return {"discard": "layout-not-found", "message": rw.message[:200]}  # placement search out of budget: inconclusive
         return {"failures": [{"sig": "composition-refused", "detail": {"message": rw.message[:300]}}], "sample": {"program": text}}
     fails, classes = [], set(case["kinds"])
     varies = False
@@ -139,6 +141,8 @@ def run_case(case):
         for i, p in enumerate(parts):
             _t, rp = twin.build(p, {}, opt, case.get("sched"))
             if not rp.accepted:
+                if "[layout_planning]" in (rp.message or ""):
+                    return {"discard": "layout-not-found", "message": rp.message[:200]}
                 fails.append({"sig": "part-refused-alone", "detail": {"part": i, "message": rp.message[:300]}})
                 continue
             cp = sim.load(rp.bp)
